@@ -164,6 +164,10 @@ void AbstractParameterAliasable::aliasParameters(map<string, string>& unparsedPa
       plpars.addParameter(p2.release());
       plpars.parameter(it->first);
       aliasParameters(it->second, it->first);
+      // The new alias takes the current value of its source at once (and forwards it to its own aliases).
+      // A value computed beforehand may be outdated once all links are made, when the source is itself
+      // aliased to a parameter that gets its value from another entry of the map.
+      setParameterValue(it->first, getParameterValue(it->second));
       if (verbose)
         ApplicationTools::displayResult("Parameter alias found", it->first + " -> " + it->second + " = " + TextTools::toString(pp->getValue()));
       it = unparsedParams.erase(it);
@@ -174,8 +178,6 @@ void AbstractParameterAliasable::aliasParameters(map<string, string>& unparsedPa
     else
       unp_s = unparsedParams.size();
   }
-
-  matchParametersValues(plpars);
 }
 
 
